@@ -8,3 +8,28 @@ for d in sorted(glob.glob('/verif/seeded/*/meta.json')):
         nf = any('no-failing-input-found' in l for l in viol)
         row.append('%s:exit=%s%s%s' % (c, v['exit'], ' V' if viol else '', ' (no-input)' if nf else ''))
     print(m['id'], 'confirmed' if m.get('confirmed', {}).get('all') else 'UNCONFIRMED', ' '.join(row), '|', (list(m.get('checks', {}).values()) or [{}])[0].get('what', '')[:110])
+
+import sys
+if "--md" in sys.argv:
+    rows = ["# Seeded changes and the checks that report them", "",
+            "Each change was written by an independent sub-agent from the property text alone, confirmed here (builds with and without the hooks, 52 baseline tests pass, demonstration fails with / passes without the change) and run against the registered quick check of its property by `tools/seed.py` (apply to /repo, run, revert).", "",
+            "| id | what it needs to manifest (from its README) | check | exit | first reported violation |", "|---|---|---|---|---|"]
+    import re
+    for d in sorted(glob.glob('/verif/seeded/*/meta.json')):
+        m = json.load(open(d))
+        readme = ''
+        try:
+            readme = open(os.path.join(os.path.dirname(d), 'README.md')).read()
+        except Exception:
+            pass
+        need = ''
+        mm = re.search(r'(?is)(what it needs[^\n]*\n+)(.{0,400})', readme)
+        if mm:
+            need = ' '.join(mm.group(2).split())[:220]
+        m['needs'] = need
+        for c, v in m.get('checks', {}).items():
+            viol = [l for l in v['lines'] if l.startswith('VIOLATION')]
+            tag = 'VIOLATION' + (' (no-failing-input-found)' if viol and all('no-failing' in l for l in viol) else '') if viol else 'quiet'
+            rows.append("| %s | %s | %s | %s %s | %s |" % (m['id'], need.replace('|', '/'), c, v['exit'], tag, v.get('what', '')[:160].replace('|', '/').replace('\n', ' ')))
+    open('/verif/seeded/SUMMARY.md', 'w').write("\n".join(rows) + "\n")
+    print("written")
